@@ -464,6 +464,8 @@ type session struct {
 	readers map[int]*packet.Reader
 	events  chan sinkEv
 	wg      sync.WaitGroup
+	// onArrive, when set (before the first write), is told about every packet a sink reader hands out
+	onArrive func(sink int)
 }
 
 func openSession(f *flow) *session {
@@ -476,6 +478,9 @@ func openSession(f *flow) *session {
 		go func() {
 			defer s.wg.Done()
 			for p := range r.Read() {
+				if s.onArrive != nil {
+					s.onArrive(i)
+				}
 				s.events <- sinkEv{i, p}
 			}
 		}()
